@@ -215,4 +215,25 @@ def validate_order(ck):
 # GE and Dims: the only properties that rest on them (C20; C07, C12) compare the pinned functions with the live code in their
 # own correspondence run - exhaustively for GE (all 65536 field values x every flag assignment), on every (version, format)
 # request for Dims - so no separate grid is needed: the fallback is accepted iff that correspondence holds.
-VALIDATORS = {"Reader": validate_reader, "Copc": validate_copc, "Compression": validate_compression, "GE": None, "Dims": None, "Views": validate_views, "Order": validate_order}
+
+def validate_formateq(ck):
+    """pinned unit FormatEq vs the live `PointFormat.__eq__` on pairs of formats that differ in one respect (and random ones)"""
+    from . import formateq as fe
+    import random
+    rng = random.Random(20240601)
+    cases = fe.pairs(rng, 200)
+    lines, live, labels = [], [], []
+    for label, ia, pa, ib, pb in cases:
+        fa, fb = fe.build(ia, pa), fe.build(ib, pb)
+        lines.append(fe.eq_line(fa, fb))
+        live.append("1" if fa == fb else "0")
+        labels.append((label, ia, ib, [p.name + ":" + str(p.type) for p in pa], [p.name + ":" + str(p.type) for p in pb]))
+    out = ck.driver(lines)
+    if out is None or len(out) != len(lines):
+        return False, len(lines), "driver did not run"
+    for lab, o, e in zip(labels, out, live):
+        if o != e:
+            return False, len(lines), f"PointFormat.__eq__ on {lab}: code gives {e}, pinned model {o}"
+    return True, len(lines), ""
+
+VALIDATORS = {"FormatEq": validate_formateq, "Reader": validate_reader, "Copc": validate_copc, "Compression": validate_compression, "GE": None, "Dims": None, "Views": validate_views, "Order": validate_order}
